@@ -298,7 +298,7 @@ func (n *lazyNode) compact() []byte {
 	return buf.Bytes()
 }
 
-func (n *lazyNode) tryDoc() bool {
+func (n *lazyNode) tryDoc(options *ApplyOptions) bool {
 	if n.raw == nil {
 		return false
 	}
@@ -313,6 +313,7 @@ func (n *lazyNode) tryDoc() bool {
 		return false
 	}
 
+	n.doc.opts = options
 	n.which = eDoc
 	return true
 }
@@ -344,7 +345,7 @@ func (n *lazyNode) isNull() bool {
 	return bytes.Equal(n.compact(), rawJSONNull)
 }
 
-func (n *lazyNode) equal(o *lazyNode) bool {
+func (n *lazyNode) equal(o *lazyNode, options *ApplyOptions) bool {
 	if o == nil {
 		return n.which == eRaw && n.isNull()
 	}
@@ -356,7 +357,7 @@ func (n *lazyNode) equal(o *lazyNode) bool {
 	}
 
 	if n.which == eRaw {
-		if !n.tryDoc() && !n.tryAry() {
+		if !n.tryDoc(options) && !n.tryAry() {
 			if o.which != eRaw {
 				return false
 			}
@@ -387,7 +388,7 @@ func (n *lazyNode) equal(o *lazyNode) bool {
 
 	if n.which == eDoc {
 		if o.which == eRaw {
-			if !o.tryDoc() {
+			if !o.tryDoc(options) {
 				return false
 			}
 		}
@@ -415,7 +416,7 @@ func (n *lazyNode) equal(o *lazyNode) bool {
 				continue
 			}
 
-			if !v.equal(ov) {
+			if !v.equal(ov, options) {
 				return false
 			}
 		}
@@ -442,7 +443,7 @@ func (n *lazyNode) equal(o *lazyNode) bool {
 			continue
 		}
 
-		if !val.equal(oval) {
+		if !val.equal(oval, options) {
 			return false
 		}
 	}
@@ -1020,7 +1021,7 @@ func (p Patch) replace(doc *container, op Operation, options *ApplyOptions) erro
 		val := op.value()
 
 		if val.which == eRaw {
-			if !val.tryDoc() {
+			if !val.tryDoc(options) {
 				if !val.tryAry() {
 					return fmt.Errorf("replace operation value must be object or array: %w", err)
 				}
@@ -1130,7 +1131,7 @@ func (p Patch) test(doc *container, op Operation, options *ApplyOptions) error {
 			self.which = eAry
 		}
 
-		if self.equal(op.value()) {
+		if self.equal(op.value(), options) {
 			return nil
 		}
 
@@ -1159,7 +1160,7 @@ func (p Patch) test(doc *container, op Operation, options *ApplyOptions) error {
 		return fmt.Errorf("testing value %s failed: %w", path, ErrTestFailed)
 	}
 
-	if val.equal(op.value()) {
+	if val.equal(op.value(), options) {
 		return nil
 	}
 
@@ -1221,7 +1222,7 @@ func Equal(a, b []byte) bool {
 	la := newLazyNode(newRawMessage(a))
 	lb := newLazyNode(newRawMessage(b))
 
-	return la.equal(lb)
+	return la.equal(lb, nil)
 }
 
 // DecodePatch decodes the passed JSON document as an RFC 6902 patch.
